@@ -369,7 +369,8 @@ def c_hset_remove(ex, st, callee, a):
 def c_hmap_new(ex, st, callee, a): return [(None, ('hmap', K(S, False), K(S, JV.Null), ()))]
 
 
-@contract(r'^HashMap::<std::string::String, Box<dyn for<.*>>::new$', r'^<HashMap<std::string::String, Box<dyn for<.*>> as Default>::default$')
+@contract(r'^HashMap::<std::string::String, Box<dyn for<.*>>::new$', r'^<HashMap<std::string::String, Box<dyn for<.*>> as Default>::default$',
+          r'^HashMap::<std::string::String, serde_json::Value>::(new|with_capacity)$', r'^<HashMap<std::string::String, serde_json::Value> as Default>::default$')
 def c_vmap_new(ex, st, callee, a): return [(None, ('vmap', K(S, False), ()))]
 
 
@@ -392,7 +393,7 @@ def c_hmap_remove(ex, st, callee, a):
     return [(None, NONE)]       # the removed value is dropped by every caller in the crate
 
 
-@contract(r'^HashMap::<std::string::String, Box<dyn erased_serde::Serialize>>::contains_key::<', r'^HashMap::<std::string::String, Box<dyn for<.*>>::contains_key::<')
+@contract(r'^HashMap::<std::string::String, Box<dyn erased_serde::Serialize>>::contains_key::<', r'^HashMap::<std::string::String, Box<dyn for<.*>>::contains_key::<', r'^HashMap::<std::string::String, serde_json::Value>::contains_key::<')
 def c_hmap_contains(ex, st, callee, a): return [(None, Select(deref(st, a[0])[1], as_str(st, a[1])))]
 
 
@@ -406,7 +407,7 @@ def c_hmap_extend(ex, st, callee, a):
     upd(st, a[0], ('hmap', pres, vals, None)); return [(None, UNIT)]
 
 
-@contract(r'^HashMap::<std::string::String, Box<dyn for<.*>>::insert$')
+@contract(r'^HashMap::<std::string::String, Box<dyn for<.*>>::insert$', r'^HashMap::<std::string::String, serde_json::Value>::insert$')
 def c_vmap_insert(ex, st, callee, a):
     m = deref(st, a[0]); k = as_str(st, a[1])
     upd(st, a[0], ('vmap', Store(m[1], k, True), tuple(e for e in m[2]) + ((k, a[2]),))); return [(None, NONE)]
@@ -439,7 +440,7 @@ def vmap_lookup(m, k):
     return outs
 
 
-@contract(r'^<HashMap<std::string::String, Box<dyn for<.*>> as std::ops::Index<')
+@contract(r'^<HashMap<std::string::String, Box<dyn for<.*>> as std::ops::Index<', r'^<HashMap<std::string::String, serde_json::Value> as std::ops::Index<')
 def c_vmap_index(ex, st, callee, a):
     m = deref(st, a[0]); k = as_str(st, a[1])
     outs = [(Not(Select(m[1], k)), Panic('HashMap index: key not found (claim_validators)'))]
@@ -768,7 +769,7 @@ def c_hmap_get(ex, st, callee, a):
     return [(Select(m[1], k), some(('ref', vc, ()))), (Not(Select(m[1], k)), NONE)]
 
 
-@contract(r'^HashMap::<std::string::String, Box<dyn for<.*>>::get::<')
+@contract(r'^HashMap::<std::string::String, Box<dyn for<.*>>::get::<', r'^HashMap::<std::string::String, serde_json::Value>::get::<')
 def c_vmap_get(ex, st, callee, a):
     m = deref(st, a[0]); k = as_str(st, a[1])
     outs = [(Not(Select(m[1], k)), NONE)]
